@@ -40,14 +40,18 @@ def refStr : RefDec → String
 
 def le16 (n : Nat) : List UInt8 := [UInt8.ofNat n, UInt8.ofNat (n / 256)]
 
-/-- the compressor always goes through the streaming model (the form of the Rust code); the spec form
-`compress` is what the theorems are about, their equality is checked here on every request and proved
-in `Tw.Proofs.HuffmanStream` -/
+/-- The spec form `compress` is what the theorems are about; the streaming model (the form of the
+Rust code) is proved equal to it for well-formed tables (`Tw.Props.C07.streaming_compressor_eq_spec`).
+For inputs up to 512 bytes both are computed on every request and compared here as well (a cross-check
+of the executable definitions); for longer inputs only the linear-time spec form is evaluated — the
+streaming model measures `out.length` at every byte and is quadratic. -/
 def compressChecked (t : Table) (bug : Bool) (xs : List UInt8) : Option (List UInt8) :=
   let a := compress t bug xs
-  match compressStream t bug xs with
-  | some b => if a = b then some a else none
-  | none => none
+  if xs.length > 512 then some a
+  else
+    match compressStream t bug xs with
+    | some b => if a = b then some a else none
+    | none => none
 
 def hashCompress (t : Table) (h : UInt64) (xs : List UInt8) : UInt64 :=
   match compressChecked t false xs, compressChecked t true xs with
